@@ -3,6 +3,7 @@
 
 import os
 import sys
+import json
 import inspect
 from collections import OrderedDict
 from collections.abc import Callable
@@ -675,4 +676,17 @@ class result_dep(UptodateCalculator):
         last_success = values.get(self.result_name)
         if last_success is None:
             return False
-        return last_success == dep_result
+        return self._as_saved(last_success) == self._as_saved(dep_result)
+
+    @staticmethod
+    def _as_saved(result):
+        """a result as it is read back from the DB
+
+        The saved value went through the JSON encoding of the DB (a tuple is
+        read back as a list...), the result of a task executed in this run
+        did not.
+        """
+        try:
+            return json.loads(json.dumps(result))
+        except (TypeError, ValueError):
+            return result
